@@ -12,6 +12,7 @@ CONSTANTS
   KBig = 1
   NBigMin = 1
   NBigMax = 1
+  Select = "all"
 INIT GInit
 NEXT GNext
 POSTCONDITION Post
